@@ -24,6 +24,7 @@ import (
 	"mellium.im/xmpp/mux"
 	"mellium.im/xmpp/stanza"
 	"mellium.im/xmpp/verifharness/internal/ev"
+	"mellium.im/xmpp/verifharness/internal/gen"
 )
 
 func TestMain(m *testing.M) { ev.Main(m, "C14") }
@@ -932,7 +933,7 @@ func genLeaf(t *rapid.T, depth int) *elem {
 	if depth < 2 {
 		switch rapid.IntRange(0, 5).Draw(t, "content") {
 		case 0:
-			e.kids = []node{{text: rapid.SampledFrom([]string{"t", "hello world", " ", "\n  "}).Draw(t, "text")}}
+			e.kids = []node{{text: spelled(t, rapid.SampledFrom([]string{"t", "hello world", " ", "\n  "}).Draw(t, "text"))}}
 		case 1:
 			// a grandchild whose name may well be registered: it must never be
 			// dispatched on
@@ -948,7 +949,17 @@ func genLeaf(t *rapid.T, depth int) *elem {
 }
 
 func genText(t *rapid.T) string {
-	return rapid.SampledFrom([]string{" ", "\n\t", "txt", " mixed content "}).Draw(t, "between")
+	return spelled(t, rapid.SampledFrom([]string{" ", "\n\t", "txt", " mixed content "}).Draw(t, "between"))
+}
+
+// spelled writes text, one time in three, in another of the spellings XML has
+// for it (CDATA sections, character references, several runs): the decoder
+// then delivers it as several character-data tokens.
+func spelled(t *rapid.T, s string) string {
+	if rapid.IntRange(0, 2).Draw(t, "spelled") != 0 {
+		return s
+	}
+	return gen.SpellText(t, "sp", s)
 }
 
 func genStanza(t *rapid.T, stanzaNS string, k kind, typ string) *elem {
@@ -1011,7 +1022,7 @@ func genStanza(t *rapid.T, stanzaNS string, k kind, typ string) *elem {
 		}
 		if n == 1 {
 			if rapid.IntRange(0, 3).Draw(t, "leadingSpace") == 0 {
-				e.kids = append(e.kids, node{text: rapid.SampledFrom([]string{" ", "\n  ", "\t"}).Draw(t, "ws")})
+				e.kids = append(e.kids, node{text: spelled(t, rapid.SampledFrom([]string{" ", "\n  ", "\t"}).Draw(t, "ws"))})
 			}
 			e.kids = append(e.kids, node{el: genLeaf(t, 0)})
 			if typ == "error" && rapid.Bool().Draw(t, "errChild") {
